@@ -35,7 +35,8 @@ Definition stage_11 (h1 : hdict) (connection : bytes) (p : parser) : parser * op
     | (p, None) =>
       let expect := lower_latin1 (hget_default (headers p) s_EXPECT []) in
       let p := p <| expect_continue := beqb expect s_100_continue |> in
-      let p := if beqb (lower_latin1 connection) s_close
+      let p := if existsb (fun t => beqb (strip_by is_sp_htab t) s_close)
+                          (split (lower_latin1 connection) [44])
                then p <| connection_close := true |> else p in
       (p, None)
     end.
@@ -63,6 +64,9 @@ Definition stage_uri (a : adj) (p : parser) (h1 : hdict) (cmd uri ver : bytes) :
     let connection := hget_default h1 s_CONNECTION [] in
     let p := if beqb ver s_1_0 && negb (beqb (lower_latin1 connection) s_keep_alive)
              then p <| connection_close := true |> else p in
+    let p := if negb (beqb ver s_1_1)
+                && (match hget h1 s_TRANSFER_ENCODING with Some _ => true | None => false end)
+             then p <| connection_close := true |> else p in
     let r11 := if beqb ver s_1_1 then stage_11 h1 connection p else (p, None) in
     match r11 with
     | (p, Some e) => (p, PSError e)
@@ -75,7 +79,7 @@ Lemma parse_header_stages a p hp :
   match find hp CRLF with
   | None => (p, PSError EHeaderInvalid)
   | Some index =>
-    let fl := rstrip_by is_bytes_ws (firstn index hp) in
+    let fl := rstrip_by is_reqline_ws (firstn index hp) in
     let header := skipn (index + 2) hp in
     if has_cr_or_lf fl then (p, PSError EBareCRLFFirstLine)
     else
@@ -136,13 +140,13 @@ Proof.
   apply stage_chunk_ok in Esc. destruct Esc as (S3 & RL & CL & Hc).
   intro H. injection H as <-.
   assert (X : forall q : parser,
-    let q' := (if beqb (lower_latin1 conn) s_close
+    let q' := (if existsb (fun t => beqb (strip_by is_sp_htab t) s_close) (split (lower_latin1 conn) [44])
                then q <| expect_continue := beqb (lower_latin1 (hget_default (headers q) s_EXPECT [])) s_100_continue |>
                       <| connection_close := true |>
                else q <| expect_continue := beqb (lower_latin1 (hget_default (headers q) s_EXPECT [])) s_100_continue |>) in
     status3 q' = status3 q /\ reqline q' = reqline q /\ content_length q' = content_length q /\
     chunked q' = chunked q /\ body q' = body q /\ headers q' = headers q).
-  { intro q0. destruct (beqb (lower_latin1 conn) s_close); cbn; auto 8. }
+  { intro q0. destruct (existsb _ (split (lower_latin1 conn) [44])); cbn; auto 8. }
   specialize (X q). cbv zeta in X. destruct X as (S3' & RL' & CL' & C' & B' & H').
   rewrite S3', RL', CL', C', B', H'.
   split; [exact S3|]. split; [exact RL|]. split; [exact CL|]. split; [exact Efa|].
@@ -175,7 +179,7 @@ Qed.
 Record accepted_head (a : adj) (p p' : parser) (hp : bytes)
        (fl : bytes) (lines : list bytes) (h1 : hdict) : Prop := {
   ah_find : exists index, find hp CRLF = Some index /\
-            fl = rstrip_by is_bytes_ws (firstn index hp) /\
+            fl = rstrip_by is_reqline_ws (firstn index hp) /\
             get_header_lines (skipn (index + 2) hp) = inr lines;
   ah_no_crlf : has_cr_or_lf fl = false;
   ah_lines : add_header_lines (headers p) lines = inr h1;
@@ -213,17 +217,20 @@ Proof.
   destruct (beqb cmd [] && beqb uri [] && beqb ver []) eqn:Ene; [discriminate|].
   unfold stage_uri.
   destruct (split_uri uri) as [sc nl pa qu fr| | |] eqn:Hsplit; try discriminate.
-  set (fl := rstrip_by is_bytes_ws (firstn index hp)) in *.
+  set (fl := rstrip_by is_reqline_ws (firstn index hp)) in *.
   set (q0 := p <| first_line := fl |> <| headers := h1 |> <| request_uri := uri |> <| command := cmd |>
                <| version := ver |> <| p_scheme := sc |> <| p_netloc := nl |> <| path := pa |>
                <| query := qu |> <| fragment := fr |> <| url_scheme := adj_url_scheme a |>).
   set (conn := hget_default h1 s_CONNECTION []).
-  set (q1 := if beqb ver s_1_0 && negb (beqb (lower_latin1 conn) s_keep_alive)
-             then q0 <| connection_close := true |> else q0).
+  set (q1a := if beqb ver s_1_0 && negb (beqb (lower_latin1 conn) s_keep_alive)
+              then q0 <| connection_close := true |> else q0).
+  set (q1 := if negb (beqb ver s_1_1)
+                && (match hget h1 s_TRANSFER_ENCODING with Some _ => true | None => false end)
+             then q1a <| connection_close := true |> else q1a).
   assert (Q1 : status3 q1 = status3 p /\ reqline q1 = (cmd, ver, uri, pa, qu, adj_url_scheme a) /\
                headers q1 = h1 /\ chunked q1 = chunked p /\ body q1 = body p /\
                content_length q1 = content_length p).
-  { unfold q1. destruct (beqb ver s_1_0 && _); cbn; auto 8. }
+  { unfold q1, q1a. destruct (beqb ver s_1_0 && _); destruct (negb (beqb ver s_1_1) && _); cbn; auto 8. }
   destruct Q1 as (S1 & R1 & H1 & C1 & B1 & L1).
   cbv zeta.
   destruct (beqb ver s_1_1) eqn:E11.
